@@ -17,7 +17,7 @@ Hypotheses used below (all decidable on a concrete history, see the examples at 
 * `(run ops).evicted = []` — the orphan pool never overflowed its bound of 100 (an evicted orphan was
                            delivered but is forgotten by design; wall-clock expiry is not modelled).
 -/
-import BV.C02.Lemmas9
+import BV.C02.Lemmas10
 import BV.Generated.C02
 namespace BV.C02
 open Spec Lemmas
@@ -260,10 +260,19 @@ theorem reconsider_moves_to_best_full_fails :
   have := hm 8 3 c8
   omega
 
-/-- `_partial`: reconsidering a block that is (still) marked valid — in particular any block of the
-active chain after a delivery history — changes nothing at all, so the tip stays the best chain.
-Missing: reconsidering a block that was invalidated before — false in general, see `…_full_fails`. -/
-theorem reconsider_moves_to_best_partial (s : State) (h : Hash) (c : Option Hash) (n : Node)
+/-- `_partial`: after a pure delivery history (nothing was manually invalidated), ReconsiderBlock of
+ANY block with ANY map-order choice leaves the active chain where it is, and the tip is still the
+best chain: there is nothing to re-include, a genuinely invalid block fails its re-validation again,
+and no lesser or invalid chain can be activated. Missing: reconsidering after an InvalidateBlock —
+false in general, see `reconsider_moves_to_best_full_fails`. -/
+theorem reconsider_moves_to_best_partial (ops : List Op) (h : Hash) (c : Option Hash) (hdo : deliveryOnly ops)
+    (hwf : WF (mentioned ops)) (hev : (run ops).evicted = []) :
+    (run (ops ++ [.reconsider h c])).best = (run ops).best ∧
+    IsBest (delivered ops) (run (ops ++ [.reconsider h c])).tip :=
+  run_reconsider_keeps_best ops h c hdo hwf hev
+
+/-- reconsidering a block that is marked valid is the identity on the whole state -/
+theorem reconsider_valid_is_noop (s : State) (h : Hash) (c : Option Hash) (n : Node)
     (hl : lookup s.idx h = some n) (hv : (s.status h).valid = true) : (reconsider s h c).1 = s :=
   reconsider_valid_noop s h c n hl hv
 
